@@ -814,6 +814,33 @@ fire("c08-tensor-contraction-absent-vars-not-reduced", "C08", CNF,
 rename("C08", CNF, "_eager_contract_tensors")
 
 
+fire("c01-getitem-rule-ignores-offset", "C01", TENSOR,
+     "    offset = op.defaults[\"offset\"]\n    index = [slice(None)] * (len(lhs.inputs) + offset)\n    index.append(rhs.data)\n    index = tuple(index)\n",
+     "    index = (slice(None),) * len(lhs.inputs) + (rhs.data,)\n", "R01.11", "eager_getitem_tensor_number")
+fire("c02-distribution-over-reducing-inner-term", "C02", OPTIMIZER,
+     "        if v.red_op is ops.null and (v.bin_op, bin_op) in DISTRIBUTIVE_OPS:", "        if (v.bin_op, bin_op) in DISTRIBUTIVE_OPS:", "R02.3", "unfold_contraction_generic_tuple")
+fire("c08-freshness-test-names-vs-variables", "C08", OPTIMIZER,
+     "        if v.reduced_vars and any(v.reduced_vars & t.input_vars for t in siblings):\n            continue\n",
+     "        sibling_inputs = frozenset().union(*(t.inputs for t in siblings))\n        if v.reduced_vars & sibling_inputs:\n            continue\n", "R08.8", "unfold_contraction_generic_tuple")
+silent("c08-s-freshness-test-via-local-union", "C08", OPTIMIZER,
+       "        if v.reduced_vars and any(v.reduced_vars & t.input_vars for t in siblings):\n            continue\n",
+       "        sibling_vars = frozenset().union(*(t.input_vars for t in siblings))\n        if v.reduced_vars & sibling_vars:\n            continue\n")
+silent("c05-s-freshness-test-on-names", "C05", OPTIMIZER,
+       "        if v.reduced_vars and any(v.reduced_vars & t.input_vars for t in siblings):\n            continue\n",
+       "        if any(set(v.bound) & set(t.inputs) for t in siblings):\n            continue\n")
+fire("c08-pairwise-count-at-least-two", "C08", CNF,
+     "    reduced_twice = frozenset(v for v, count in counts.items() if count == 2)", "    reduced_twice = frozenset(v for v, count in counts.items() if count >= 2)", "R08.12", "eager_contraction_generic_recursive")
+fire("c02-pairwise-all-shared-vars", "C02", CNF,
+     "            unique_vars = reduced_twice.intersection(lhs.input_vars, rhs.input_vars)", "            unique_vars = reduced_vars.intersection(lhs.input_vars, rhs.input_vars)", "R02.10", "eager_contraction_generic_recursive")
+fire("c03-memo-key-folds-varargs-off-by-one", "C03", INTERP,
+     "        key = (cls,) + self.make_hash_key(cls, *args)",
+     "        num_fields = len(cls._ast_fields)\n        key_args = args\n        if len(args) > num_fields:\n            key_args = args[: num_fields - 1] + (args[num_fields:],)\n        key = (cls,) + self.make_hash_key(cls, *key_args)",
+     "R03.1", "Memoize.interpret")
+silent("c03-s-memo-key-folds-varargs-correctly", "C03", INTERP,
+       "        key = (cls,) + self.make_hash_key(cls, *args)",
+       "        num_fields = len(cls._ast_fields)\n        key_args = args\n        if len(args) > num_fields:\n            key_args = args[: num_fields - 1] + (args[num_fields - 1 :],)\n        key = (cls,) + self.make_hash_key(cls, *key_args)")
+
+
 # ===== derived variants: must stay at the END of this file (they enumerate every rename() variant above) =====
 # `if c: A else: B` -> `if not c: B else: A` in the anchor functions (behaviour-preserving)
 def invert(prop, file, qual):
